@@ -1,6 +1,7 @@
 package statedb
 
 import (
+	"bytes"
 	"fmt"
 	"math/big"
 	"sort"
@@ -436,6 +437,35 @@ func (s *StateDB) RevertToSnapshot(revid int) {
 	// Replay the journal to undo changes and remove invalidated snapshots
 	s.journal.Revert(s, snapshot)
 	s.validRevisions = s.validRevisions[:idx]
+}
+
+// SyncBalances brings the balance of every cached state object in line with the
+// balance the keeper holds. Stateful precompiles call it after running a Cosmos
+// message: the message can move coins of accounts the EVM has already loaded (the
+// delegator, the account its staking rewards are paid to, the caller), and
+// the cached balances are what the final Commit writes back to the bank.
+// The updates are journaled like any other balance change.
+func (s *StateDB) SyncBalances() {
+	addrs := make([]common.Address, 0, len(s.stateObjects))
+	for addr := range s.stateObjects {
+		addrs = append(addrs, addr)
+	}
+	sort.Slice(addrs, func(i, j int) bool {
+		return bytes.Compare(addrs[i].Bytes(), addrs[j].Bytes()) < 0
+	})
+	for _, addr := range addrs {
+		obj := s.stateObjects[addr]
+		if obj.suicided {
+			continue
+		}
+		account := s.keeper.GetAccount(s.ctx, addr)
+		if account == nil || account.Balance == nil {
+			continue
+		}
+		if obj.Balance().Cmp(account.Balance) != 0 {
+			obj.SetBalance(account.Balance)
+		}
+	}
 }
 
 // Commit writes the dirty states to keeper
